@@ -16,7 +16,7 @@ PROPS["C12"] = dict(
     suites=["c12t", "c12", "c12e", "c12i", "c12s"],
     random_suites=["c12"],
     shards={"c12t": 8, "c12": 4, "c12e": 1, "c12i": 1, "c12s": 2},
-    lean_modules=["ServlinVerif.Props.C12"],
+    lean_modules=["ServlinVerif.Props.C12", "ServlinVerif.Props.C13"],
     audit="Audit/C12.lean",
     rule="c12t: the real TokenSet driven exhaustively: every valid sequence up to depth 6 (thorough: 8) over {wait_token (only where a unit is free: it "
          "blocks otherwise), wait_token_timeout(0), drop oldest, drop youngest} and up to depth 4 (6) over those plus {async_wait_token polled once, "
@@ -733,7 +733,8 @@ ADD9 = {
     "C09": dict(rule="Suites c20x (an attached get_body_and_reprocess or 3xx response is handed back by log_response as it is) and c13f (a replacement server on the same cache directory while a handler works on an uploaded file)."),
     "C10": dict(rule="Behaviour T. Suites c04p (handler panics, also with non-string payloads, on a saturated pool while an upload is queued) and c12i (failing accepts on one async thread)."),
     "C11": dict(rule="c04e: one burst of 12 events of 30000 bytes consumed back to back."),
-    "C12": dict(rule="Kind q (the next request arrives while the first one's handler runs). Suite c12s: max_conns event streams open, one more client is served only once a stream has ended."),
+    "C12": dict(rule="Kind q (the next request arrives while the first one's handler runs). Suite c12s: max_conns event streams open, one more client is served only once a stream has ended.",
+                explanation="C12_full_no_accept (Props/C13.lean): with max_conns connections being serviced no unit is left and neither grant nor acceptOk is enabled."),
     "C13": dict(rule="One case holds every slot for 5.6 s before the revocation: no stopped signal before it."),
     "C19": dict(rule="Suite c19a: an event every 100 / 50 ms with a 1 s per-file age (rotation by age under steady traffic). c19w: events longer than a whole file followed by ordinary ones."),
 }
